@@ -9,6 +9,7 @@ import (
 	"crypto"
 	"crypto/rand"
 	"crypto/x509"
+	"slices"
 
 	"github.com/pion/dtls/v3/internal/ciphersuite"
 	dtlsconfig "github.com/pion/dtls/v3/internal/config"
@@ -391,8 +392,18 @@ func flight4Generate(
 			return nil, &alert.Alert{Level: alert.Fatal, Description: alert.InternalError}, dtlserrors.ErrInvalidPrivateKey
 		}
 
-		// Find compatible signature scheme
-		signatureHashAlgo, err := signaturehash.SelectSignatureScheme(cfg.LocalSignatureSchemes, signer)
+		// Find compatible signature scheme, preferring those the client listed. RFC 5246 Section 7.4.3
+		signatureSchemes := make([]signaturehash.Algorithm, 0, len(cfg.LocalSignatureSchemes))
+		for _, local := range cfg.LocalSignatureSchemes {
+			if slices.Contains(state.RemoteSignatureSchemes, local) {
+				signatureSchemes = append(signatureSchemes, local)
+			}
+		}
+		signatureHashAlgo, err := signaturehash.SelectSignatureScheme(signatureSchemes, signer)
+		if err != nil {
+			// Nothing in common: let the client reject our own choice with an alert.
+			signatureHashAlgo, err = signaturehash.SelectSignatureScheme(cfg.LocalSignatureSchemes, signer)
+		}
 		if err != nil {
 			return nil, &alert.Alert{Level: alert.Fatal, Description: alert.InsufficientSecurity}, err
 		}
